@@ -42,10 +42,19 @@ Fails(e) ==
     \* means the experiment, not the engine, is off)
     \cup (IF (Commits(e.events) = 0 => Range(e.rec) = Range(e.pre)) THEN {} ELSE {"C09_visible_before_commit"})
 
+\* storage-fault experiments (a statement or a COMMIT refused once, the process lives on and answers): the items the
+\* response acknowledges as successful form a prefix of the request; exactly their effects must be found afterwards -
+\* nothing acknowledged may be missing (Durability!AckedOnDisk), nothing refused may be left behind (FailedAbsent)
+FaultFails(e) ==
+    LET want == IF e.nacked = 0 THEN Range(e.pre) ELSE Range(e.posts[e.nacked]) IN
+    (IF Range(e.rec) = want THEN {}
+     ELSE IF \E x \in want : x \notin Range(e.rec) THEN {"C09_acknowledged_lost"} ELSE {"C09_refused_left_behind"})
+    \cup (IF e.broken = 0 THEN {} ELSE {"C09_openable"})
+
 VARIABLES n, done
 Init == n \in 1..Len(Recs) /\ done = FALSE
 Next == /\ ~done
-        /\ LET f == Fails(Recs[n]) IN f # {} => PrintT("@V@" \o ToJson([id |-> Recs[n].id, clauses |-> f]))
+        /\ LET f == IF Recs[n].fault THEN FaultFails(Recs[n]) ELSE Fails(Recs[n]) IN f # {} => PrintT("@V@" \o ToJson([id |-> Recs[n].id, clauses |-> f]))
         /\ done' = TRUE /\ n' = n
 Spec == Init /\ [][Next]_<<n, done>>
 =============================================================================
